@@ -84,7 +84,13 @@ type input struct {
 	Behaviours [][]step `json:"behaviours"`
 	Backends   []string `json:"backends"`
 	Concurrent bool     `json:"concurrent"` // also run the concurrent-writers round
+	Large      bool     `json:"large"`      // also run one chain whose first block holds very large values
+	LargeOnly  bool     `json:"large_only"` // (replay) run the given behaviour in large mode only
 }
+
+// largeN: more elements than the CBOR library's default array limit (131072); real Sierra programs
+// and CASM bytecodes are this big, calldata and event payloads may be.
+const largeN = 140_000
 
 // ------------------------------------------------------------------ equality
 
@@ -230,17 +236,48 @@ type stored struct {
 
 var versions = []string{"0.13.2", "0.13.4", "0.14.0", "0.14.1"}
 
-func concretise(g *chainkit.Gen, n *chainkit.Node, a action, number, idx int, contracts *[]felt.Felt) (*stored, error) {
+// l1Handler builds the three nonce variants of an L1 handler transaction: with a nonce (chainkit),
+// with a ZERO nonce (a value, hashed like any other), and the legacy form with NO nonce (mainnet
+// block 192 …): core.TransactionHash returns the transaction's own hash for it and
+// MessageHash() has a dedicated branch, so it is storable and has a message hash to look up.
+func l1Handler(g *chainkit.Gen, variant int) core.Transaction {
+	tx := g.Tx("l1handler").(*core.L1HandlerTransaction)
+	switch variant % 3 {
+	case 1:
+		tx.Nonce = new(felt.Felt)
+		h, err := core.TransactionHash(tx, chainkit.Network)
+		if err != nil {
+			panic(err)
+		}
+		tx.TransactionHash = &h
+	case 2:
+		tx.Nonce = nil
+		tx.TransactionHash = g.Felt()
+	}
+	return tx
+}
+
+func concretise(g *chainkit.Gen, n *chainkit.Node, a action, number, idx int, contracts *[]felt.Felt, large bool) (*stored, error) {
 	st := &stored{version: versions[min(3, idx%4+number)]}
 	var d *core.StateDiff
 	classes := map[felt.Felt]core.ClassDefinition{}
-	switch (idx + number) % 3 {
+	large = large && number == 0
+	flavour := (idx + number) % 3
+	if large {
+		flavour = 0
+	}
+	switch flavour {
 	case 0: // every section populated, Cairo-0 and Sierra classes
 		d = chainkit.EmptyDiff()
 		ch, ccls := g.Cairo0Class()
 		d.DeclaredV0Classes = append(d.DeclaredV0Classes, &ch)
 		classes[ch] = ccls
 		sh, c1, c2, scls := g.SierraClass()
+		if large { // a Sierra program and a CASM bytecode of largeN felts
+			scls.Program = append(scls.Program[:3:3], g.Felts(largeN)...)
+			scls.Compiled.Bytecode = g.Felts(largeN)
+			c1, c2 = scls.Compiled.Hash(core.HashVersionV1), scls.Compiled.Hash(core.HashVersionV2)
+		}
 		casm := c1
 		if st.version >= "0.14.1" {
 			casm = c2
@@ -267,10 +304,25 @@ func concretise(g *chainkit.Gen, n *chainkit.Node, a action, number, idx int, co
 	var txs []core.Transaction
 	var rcs []*core.TransactionReceipt
 	for i := 0; i < a.Size; i++ {
-		tx := g.Tx(a.Kinds[i])
+		var tx core.Transaction
+		if a.Kinds[i] == "l1handler" {
+			tx = l1Handler(g, idx+number+i) // derived from the position: replays reproduce the variant
+		} else {
+			tx = g.Tx(a.Kinds[i])
+		}
 		var evs []*core.Event
 		for e := 0; e < a.Evs[i]; e++ {
 			evs = append(evs, &core.Event{From: g.Felt(), Keys: g.Felts(g.R.Intn(3)), Data: g.Felts(g.R.Intn(3))})
+		}
+		if large && i == 0 { // calldata and one event payload of largeN felts
+			inv := tx.(*core.InvokeTransaction)
+			inv.CallData = g.Felts(largeN)
+			h, err := core.TransactionHash(inv, chainkit.Network)
+			if err != nil {
+				return nil, err
+			}
+			chainkit.SetTxHash(inv, &h)
+			evs = append(evs, &core.Event{From: g.Felt(), Keys: g.Felts(2), Data: g.Felts(largeN)})
 		}
 		r := g.Receipt(tx, evs)
 		r.Reverted, r.RevertReason = a.Revs[i], ""
@@ -834,11 +886,11 @@ func TestAccessorsReplay(t *testing.T) {
 		in.Backends = []string{"memory", "pebblev2", "memory-poisoned"}
 	}
 	calls, steps := 0, 0
+	largeIdx := 0
 	var writersPool []*stored
 	shapes := map[string]bool{}
-	for bi, beh := range in.Behaviours {
-		idx := in.Start + bi
-		for _, backend := range in.Backends {
+	runBehaviour := func(idx int, beh []step, backends []string, large bool) {
+		for _, backend := range backends {
 			store, err := openStore(backend)
 			if err != nil {
 				t.Fatal(err)
@@ -846,12 +898,15 @@ func TestAccessorsReplay(t *testing.T) {
 			g := chainkit.NewGen(seed*1_000_003 + int64(idx))
 			node := chainkit.NewNode(store, idx%2 == 1)
 			sw := &sweeper{out: out, backend: backend, bc: node,
-				replay: vh.J{"seed": seed, "start": idx, "behaviours": [][]step{beh}, "backends": []string{backend}}}
+				replay: vh.J{"seed": seed, "start": idx, "behaviours": [][]step{beh}, "backends": []string{backend}, "large_only": large}}
+			if large {
+				sw.backend += "+large"
+			}
 			var contracts []felt.Felt
 			for i, stp := range beh {
 				steps++
 				sw.step = i
-				st, err := concretise(g, node, stp.A, i, idx, &contracts)
+				st, err := concretise(g, node, stp.A, i, idx, &contracts, large)
 				if err != nil {
 					t.Fatalf("behaviour %d step %d: build: %v", idx, i, err)
 				}
@@ -859,14 +914,14 @@ func TestAccessorsReplay(t *testing.T) {
 					t.Fatalf("behaviour %d step %d: store: %v", idx, i, err)
 				}
 				sw.chain = append(sw.chain, st)
-				if len(st.b.Block.Transactions) > 0 && len(writersPool) < 16 && backend == in.Backends[0] {
+				if len(st.b.Block.Transactions) > 0 && len(writersPool) < 16 && backend == backends[0] && !large {
 					writersPool = append(writersPool, st)
 				}
 				for j, k := range stp.A.Kinds {
 					shapes[fmt.Sprintf("%s/ev%d/rev%v", k, stp.A.Evs[j], stp.A.Revs[j])] = true
 				}
 				shapes[fmt.Sprintf("size%d/%s", stp.A.Size, st.version)] = true
-				if backend == in.Backends[0] {
+				if backend == backends[0] {
 					sw.codecs(st)
 				}
 				if h, err := node.BC.Height(); err != nil || int(h) != stp.View.Height {
@@ -900,7 +955,47 @@ func TestAccessorsReplay(t *testing.T) {
 				_ = c.Close()
 			}
 		}
+	}
+	// large mode needs a first block whose first transaction can carry the big calldata
+	largeOf := func(beh []step) []step {
+		if len(beh) == 0 || beh[0].A.Size == 0 || beh[0].A.Kinds[0] == "l1handler" {
+			return nil
+		}
+		cp := append([]step{}, beh...)
+		cp[0].A.Kinds = append([]string{"invoke3"}, beh[0].A.Kinds[1:]...)
+		return cp
+	}
+	if in.LargeOnly {
+		for bi, beh := range in.Behaviours {
+			if lb := largeOf(beh); lb != nil {
+				runBehaviour(in.Start+bi, lb, in.Backends, true)
+			}
+		}
+		out.Done(len(in.Behaviours), steps)
+		return
+	}
+	for bi, beh := range in.Behaviours {
+		idx := in.Start + bi
+		runBehaviour(idx, beh, in.Backends, false)
 		out.Sample(vh.J{"behaviour": idx, "stores": len(beh), "first": beh[0].A})
+	}
+	if in.Large { // once per run, on both databases and both state backends
+		done := 0
+		for bi, beh := range in.Behaviours {
+			if lb := largeOf(beh); lb != nil && (done == 0 || (in.Start+bi)%2 != largeIdx%2) {
+				if done == 0 {
+					largeIdx = in.Start + bi
+				}
+				runBehaviour(in.Start+bi, lb, []string{"memory", "pebblev2"}, true)
+				if done++; done == 2 {
+					break
+				}
+			}
+		}
+		if done == 0 {
+			t.Fatal("no behaviour usable for the large-values chain")
+		}
+		out.Stats["large_value_chains"] = done
 	}
 	if in.Concurrent && len(writersPool) > 1 {
 		n := 3
